@@ -17,6 +17,7 @@ type CaseFL struct {
 	Miss string `json:"miss"` // "" = well-formed; else the near-miss applied
 	Tail B      `json:"tail"` // bytes after the line (enough for the 14-byte look-ahead)
 	Msg  bool   `json:"msg"`  // go through ParseSIPMsg (+Method()) instead of ParseFLine
+	Cut  int    `json:"cut"`  // > 0: feed the first Cut bytes first, then everything (the decomposition must not depend on it)
 }
 
 func (c CaseFL) line() []byte {
@@ -152,13 +153,28 @@ func evalFL(c CaseFL) Result {
 	var o int
 	var e sipsp.ErrorHdr
 	var msg sipsp.PSIPMsg
+	start := 0
 	if c.Msg {
 		msg.Init(nil, nil, nil)
-		o, e = sipsp.ParseSIPMsg(buf, 0, &msg, sipsp.SIPMsgSkipBodyF)
+		if c.Cut > 0 && c.Cut < len(buf) {
+			if o1, e1 := sipsp.ParseSIPMsg(buf[:c.Cut:c.Cut], 0, &msg, sipsp.SIPMsgSkipBodyF); e1 == sipsp.ErrHdrMoreBytes {
+				start = o1
+			} else {
+				msg.Init(nil, nil, nil)
+			}
+		}
+		o, e = sipsp.ParseSIPMsg(buf, start, &msg, sipsp.SIPMsgSkipBodyF)
 		fl = &msg.FL
 	} else {
 		fl = &sipsp.PFLine{}
-		o, e = sipsp.ParseFLine(buf, 0, fl)
+		if c.Cut > 0 && c.Cut < len(buf) {
+			if o1, e1 := sipsp.ParseFLine(buf[:c.Cut:c.Cut], 0, fl); e1 == sipsp.ErrHdrMoreBytes {
+				start = o1
+			} else {
+				fl.Reset()
+			}
+		}
+		o, e = sipsp.ParseFLine(buf, start, fl)
 	}
 	f := c.FL
 	if c.Miss != "" {
@@ -260,6 +276,9 @@ func flTail(t *rapid.T) B {
 
 func genCaseFL(t *rapid.T) CaseFL {
 	c := CaseFL{FL: genFLine(t), Tail: flTail(t), Msg: rapid.Bool().Draw(t, "viamsg")}
+	if rapid.IntRange(0, 2).Draw(t, "chunked") == 0 {
+		c.Cut = rapid.IntRange(1, 40).Draw(t, "cut")
+	}
 	if rapid.IntRange(0, 3).Draw(t, "miss") == 0 {
 		if c.FL.Req {
 			c.Miss = pick(t, "misskind", reqMisses...)
